@@ -453,14 +453,14 @@ func c12class(t types.Type) string {
 	return "other"
 }
 
-func isIntT(t types.Type) bool {
+func c12isIntT(t types.Type) bool {
 	if t == nil {
 		return false
 	}
 	b, ok := t.Underlying().(*types.Basic)
 	return ok && b.Info()&types.IsInteger != 0
 }
-func isFloatT(t types.Type) bool {
+func c12isFloatT(t types.Type) bool {
 	if t == nil {
 		return false
 	}
@@ -481,7 +481,7 @@ func isBoolT(t types.Type) bool {
 	b, ok := t.Underlying().(*types.Basic)
 	return ok && b.Info()&types.IsBoolean != 0
 }
-func isUntypedT(t types.Type) bool {
+func c12isUntypedT(t types.Type) bool {
 	if t == nil {
 		return false
 	}
